@@ -282,6 +282,15 @@ class Fit(Contract):
                                                             z3.BoolVal(not z3.is_expr(f.get("intercept_")) and f.get("intercept_") == 0))
         out["hyper_parameters_unchanged"] = z3.BoolVal(all(f.get(k) is v or (z3.is_expr(v) and z3.is_expr(f.get(k)) and z3.eq(f.get(k), v))
                                                            for k, v in old["params"].items()))
+        # what is stored is what the last inner regression gave, as floating-point numbers (not cast to the dtype of the features)
+        loc = E.ps.get("top_locals") or {}
+        beta, coef = loc.get("beta"), f.get("coef_")
+        if isinstance(beta, NdArr) and isinstance(coef, NdArr):
+            p_ = z(coef.shape[0])
+            out["stored_coefficients_are_those_of_the_last_inner_regression_as_floats"] = z3.And(
+                z3.BoolVal(coef.kind == "real"), E.forall_range([(0, p_)], lambda j: coef.get(j) == beta.get(j)))
+        else:
+            out["stored_coefficients_are_those_of_the_last_inner_regression_as_floats"] = z3.BoolVal(False)
         # the caller's arrays - the sample weights above all, which the iterations re-weight - are read, never written
         out["training_data_and_sample_weight_not_written"] = z3.BoolVal(all(a[k].cell.writes == w for k, w in old["writes"].items()))
         return out
